@@ -12,7 +12,7 @@ import corechecks
 THEOREMS = ['C02_bookkeeping', 'C02_lengths']
 EST_THEOREMS = ['C02_shellVolume', 'C02_shellVolume_le', 'C02_evidence', 'C02_weights', 'C02_kish', 'C02_shellTerm']
 TIE_THEOREMS = ['C02_tie_formulas', 'C02_tie_structure', 'C02_tie_view']
-MODULE = [('NautilusVerif.Properties.C02', THEOREMS), ('NautilusVerif.Properties.C02Est', EST_THEOREMS),
+MODULE = [('NautilusVerif.Properties.C02', THEOREMS), ('NautilusVerif.Properties.CoreRun', ['Run_phase', 'C02_run']), ('NautilusVerif.Properties.C02Est', EST_THEOREMS),
           ('NautilusVerif.Properties.C02EstTie', TIE_THEOREMS)]
 FILES = ['nautilus/sampler.py']
 INVARIANTS = ['aligned', 'counts', 'shape']
